@@ -210,4 +210,6 @@ def selftest():
     b("negative flag forwards .true.", SETT, '            if self._args.is_nomeshsym:\n                self._confs["mesh_symmetry"] = ".false."', '            if self._args.is_nomeshsym:\n                self._confs["mesh_symmetry"] = ".true."', "R18b", "mesh_symmetry")
     b("script reads a settings key that does not exist", SCRIPT, "settings.is_mesh_symmetry", "settings.is_mesh_symmetric", "R18a", "is_mesh_symmetric", nth=0)
     n("reorder two handlers", SETT, 'if conf_key == "fpitch":', 'if conf_key == "fpitch" and True:')
+    n("option read through arg_list.get under is not None", SETT, '        if "rd_temperature" in arg_list:\n            if self._args.rd_temperature is not None:\n                self._confs["random_displacement_temperature"] = (\n                    self._args.rd_temperature\n                )\n', '        rd_temperature = arg_list.get("rd_temperature")\n        if rd_temperature is not None:\n            self._confs["random_displacement_temperature"] = rd_temperature\n')
+    b("option merged with its old spelling through 'or'", SETT, '        if "rd_temperature" in arg_list:\n            if self._args.rd_temperature is not None:\n                self._confs["random_displacement_temperature"] = (\n                    self._args.rd_temperature\n                )\n', '        rd_temperature = arg_list.get("rd_temperature") or arg_list.get("temperature")\n        if rd_temperature is not None:\n            self._confs["random_displacement_temperature"] = rd_temperature\n', "R18c", "rd_temperature")
     return V
